@@ -455,11 +455,33 @@ func (g *specGen) program(id int) cpuCase {
 		if r.n(2) == 0 {
 			op = 0x44
 		}
-		emit(op, byte(r.pick(0x7F, 0x00, 0xFF, 0x01)), byte(r.pick(0x7E, 0x00, 0xFF, 0x02)))
+		dstBank := byte(r.pick(0x7F, 0x00, 0xFF, 0x01))
+		if r.n(4) == 0 && g.get(&c, "X") == 0 {
+			// a move that overwrites its OWN bank operands (destination = the program bank, Y = address of the first
+			// operand byte): every repetition must use the operand bytes as they are in memory at that moment
+			dstBank = byte(k)
+			n = 1
+			g.setA(&c, n, r.n(2) == 0)
+			if g.get(&c, "M") == 1 {
+				g.set(&c, "RAh", 0)
+				g.set(&c, "RAl", n)
+			} else {
+				g.set(&c, "RA", n)
+			}
+			yv = (pc + 1) & 0xFFFF
+			if op == 0x44 { // MVP moves downwards: start at the second operand byte
+				yv = (pc + 2) & 0xFFFF
+			}
+			g.setXY(&c, xv, yv, r.n(2) == 0)
+			c.tag = "prog_blockmove_selfmod"
+		}
+		emit(op, dstBank, byte(r.pick(0x7E, 0x00, 0xFF, 0x02)))
 		steps = int(n) + 1
 		emit(0xAA, 0xA8, 0x8B, 0xEA) // TAX TAY PHB NOP
 		steps += 4
-		c.tag = "prog_blockmove"
+		if c.tag == "" {
+			c.tag = "prog_blockmove"
+		}
 	} else {
 		// width-switch programme
 		n := 6 + r.n(14)
